@@ -307,6 +307,22 @@ fn run_case(reqs: &[WireReq], prefixes: &[WireReq], c: &Case, res: &Resources, e
             if log.len() > 1 {
                 acc.violation("C05:server:multiple-handler-calls", &format!("{} handler calls for one message", log.len()), case());
             }
+            // "exactly the number of files the request prescribes": the descriptors attached to the
+            // message (all on its first byte, at most what one receive can take) against what the
+            // accepted request prescribes - a message accepted while some of its descriptors were
+            // silently dropped carried a number of files other than the prescribed one
+            let single_segment = !(b.fds_on_body && !b.body.is_empty());
+            if single_segment && b.nfds <= 32 && log.len() == 1 {
+                let call = &log[0];
+                let prescribed = match call.op {
+                    "set_backend_req_fd" | "set_gpu_socket" => 1,
+                    _ => call.files.len(),
+                };
+                if b.nfds != prescribed {
+                    acc.outcome("accepted-with-wrong-file-count");
+                    acc.violation(&format!("C05:server:file-count:{}", call.op), &format!("handler {} invoked for a message carrying {} descriptor(s) where the accepted request prescribes {prescribed}; message {} mutated by {:?}", call.op, b.nfds, req.name(), c.devs), case());
+                }
+            }
             for call in &log {
                 match call_valid(call) {
                     Ok(()) => {
